@@ -294,6 +294,83 @@ class PropCheck:
         pass
 
 
+class _WithWitnesses:
+    """The property's check plus the regression witnesses of defects repaired in /repo (harness/witnesses.py): one extra case
+    per witness, observed by running the witness against /repo in a process of its own, judged by what it prints."""
+
+    def __init__(self, chk: PropCheck):
+        self.__dict__["_c"] = chk
+
+    def __getattr__(self, name):
+        return getattr(self.__dict__["_c"], name)
+
+    def __setattr__(self, name, value):
+        setattr(self.__dict__["_c"], name, value)
+
+    @staticmethod
+    def _is_w(case) -> bool:
+        return isinstance(case, dict) and case.get("k") == "witness"
+
+    def witness_cases(self) -> List[dict]:
+        from . import witnesses
+
+        return [{"k": "witness", "id": w} for w in witnesses.FOR.get(self.pid, [])]
+
+    def known_witnesses(self) -> List[dict]:
+        from . import witnesses
+
+        return list(self._c.known_witnesses()) + [{"id": w, "case": {"k": "witness", "id": w}} for w in witnesses.KNOWN_FOR.get(self.pid, [])]
+
+    def run_real(self, case):
+        if self._is_w(case):
+            from . import witnesses
+
+            r = witnesses.run(case["id"])
+            if "could not run" in r:
+                raise RuntimeError(r)
+            return r
+        return self._c.run_real(case)
+
+    def canon(self, case, real):
+        return str(real) if self._is_w(case) else self._c.canon(case, real)
+
+    def oracle(self, case, real):
+        if self._is_w(case):
+            return None if real == "ok" else str(real)
+        return self._c.oracle(case, real)
+
+    def model_line(self, case):
+        return None if self._is_w(case) else self._c.model_line(case)
+
+    def model_lines(self, case):
+        if self._is_w(case):
+            return None
+        if hasattr(self._c, "model_lines"):
+            return self._c.model_lines(case)
+        l = self._c.model_line(case)
+        return None if l is None else [l]
+
+    def nontrivial_key(self, case, real):
+        return f"witness:{case['id']}" if self._is_w(case) else self._c.nontrivial_key(case, real)
+
+    def shrink(self, case, failing):
+        return case if self._is_w(case) else self._c.shrink(case, failing)
+
+    def matches_known(self, k, case, real, failure):
+        if self._is_w(case):
+            return False
+        return self._c.matches_known(k, case, real, failure)
+
+    def stats(self, cases, reals):
+        keep = [i for i, c in enumerate(cases) if not self._is_w(c)]
+        d = self._c.stats([cases[i] for i in keep], [reals[i] for i in keep])
+        ws = {c["id"]: reals[i] for i, c in enumerate(cases) if self._is_w(c)}
+        if ws:
+            d = dict(d or {})
+            d["regression_witnesses"] = ws
+        return d
+
+
 def load_known() -> List[dict]:
     p = VERIF / "KNOWN_FINDINGS.json"
     if not p.exists():
@@ -339,6 +416,7 @@ def main_check(chk: PropCheck, argv: Optional[List[str]] = None) -> int:
     ap.add_argument("--replay", default=None)
     ap.add_argument("--no-lean", action="store_true", help="debug: skip the Lean side")
     args = ap.parse_args(argv)
+    chk = _WithWitnesses(chk)  # type: ignore[assignment]
     seed = int(os.environ.get("VERIF_SEED", "0") or 0)
     tier = args.tier
     pid = chk.pid
@@ -373,7 +451,7 @@ def main_check(chk: PropCheck, argv: Optional[List[str]] = None) -> int:
 
     # ---- correspondence + oracle on the real code ------------------------------------------
     chk.setup()
-    cases = chk.corpus() + chk.cases(rng, tier)
+    cases = chk.corpus() + chk.cases(rng, tier) + chk.witness_cases()
     reals = []
     n_timeouts = 0
     t_real = time.time()
